@@ -37,16 +37,19 @@ type Profile struct {
 	TextPool                                                                                       []string
 	MultiTokenCases                                                                                bool
 	PFallback                                                                                      float64 // probability that a poryswitch has a `_` case (default 0.5)
+	WCondGoto                                                                                      int     // weight of user-written goto_if_set/goto_if_unset commands (targets: labels of the same script)
+	PoryContinueAnywhere                                                                           bool    // allow `continue` to end a poryswitch case that is not last in its block
 }
 
 // Gen is a generator instance for one program.
 type Gen struct {
-	R      *rand.Rand
-	P      Profile
-	Prog   *Program
-	n      int
-	labels []string // labels of the current script
-	gotos  []*Cmd
+	R         *rand.Rand
+	P         Profile
+	Prog      *Program
+	n         int
+	labels    []string // labels of the current script
+	gotos     []*Cmd
+	condGotos []*Cmd
 	// lexical context
 	loopDepth   int
 	breakDepth  int
@@ -127,7 +130,7 @@ func (g *Gen) Cands() []int {
 // ---------------------------------------------------------------------------
 // Commands and arguments
 
-var plainArgPool = []string{"VAR_RESULT", "ITEM_POTION", "1", "0x4000", "-3", "MSGBOX_YESNO", "OBJ_EVENT_ID_PLAYER", "0", "42", "Ünï", "ポケ", "FLAG_TEMP_1"}
+var plainArgPool = []string{"VAR_RESULT", "ITEM_POTION", "1", "0x4000", "0x1f", "0xabc", "-3", "MSGBOX_YESNO", "OBJ_EVENT_ID_PLAYER", "0", "42", "Ünï", "ポケ", "FLAG_TEMP_1"}
 var oddTokPool = []string{"+", "-", "*", "==", "<", ">=", "!", "&&", "||", "if", "while", "global", "local", "true", "var", "flag", "default", "case", "[", "]", "=", "script", "text", "value", "@", "%", "0x1F", "007"}
 
 func (g *Gen) plainArg() *Arg {
@@ -208,6 +211,10 @@ func (g *Gen) Moves(maxLen int, allowEnd bool) []*ListElem {
 // Cmd generates a fresh opaque command with a unique name.
 func (g *Gen) Cmd() *Cmd {
 	c := &Cmd{ID: g.Prog.NewID(), Name: g.Name("cmd")}
+	if g.R.IntN(25) == 0 {
+		// ordinary commands whose names merely start like control commands
+		c.Name = g.Name([]string{"gotostd", "goto_ifx", "returnx", "endx", "callstd", "comparex", "switchx"}[g.R.IntN(7)])
+	}
 	n := g.R.IntN(4)
 	for i := 0; i < n; i++ {
 		switch {
@@ -414,7 +421,7 @@ func (g *Gen) stmts(n int, tailOK bool) []Stmt {
 func (g *Gen) stmt(contOK bool) (Stmt, bool) {
 	p := &g.P
 	deep := g.depth >= p.MaxDepth
-	w := []int{p.WCmd, p.WLabel, p.WGoto, p.WEnd, p.WIf, p.WWhile, p.WInfWhile, p.WDoWhile, p.WBreak, p.WContinue, p.WSwitch, p.WPory}
+	w := []int{p.WCmd, p.WLabel, p.WGoto, p.WEnd, p.WIf, p.WWhile, p.WInfWhile, p.WDoWhile, p.WBreak, p.WContinue, p.WSwitch, p.WPory, p.WCondGoto}
 	if deep {
 		w[4], w[5], w[6], w[7], w[10], w[11] = 0, 0, 0, 0, 0, 0
 	}
@@ -474,6 +481,10 @@ func (g *Gen) stmt(contOK bool) (Stmt, bool) {
 		return g.switchStmt(contOK), false
 	case 11:
 		return g.poryStmt(contOK), false
+	case 12:
+		c := &Cmd{ID: g.Prog.NewID(), Name: []string{"goto_if_set", "goto_if_unset"}[g.R.IntN(2)], Args: []*Arg{{Toks: []string{g.Name("FLAG_G")}}, {Toks: []string{"?"}}}}
+		g.condGotos = append(g.condGotos, c)
+		return &CmdStmt{Cmd: c}, false
 	}
 	return nil, false
 }
@@ -595,13 +606,14 @@ func (g *Gen) poryStmt(contOK bool) *PorySwitch {
 	for _, nm := range cs {
 		c := &PSCase{Name: nm, Brace: g.R.IntN(2) == 0}
 		if c.Brace {
-			c.Body = g.Block(contOK)
+			c.Body = g.Block(contOK || g.P.PoryContinueAnywhere)
 		} else {
 			// colon form: exactly one statement, and `continue` is never legal
 			// there (it must be followed by `}`)
 			b := &Block{ID: g.Prog.NewID()}
+			lastCase := nm == cs[len(cs)-1]
 			for len(b.Stmts) == 0 {
-				st, _ := g.stmt(false)
+				st, _ := g.stmt(lastCase && g.P.PoryContinueAnywhere)
 				if st != nil {
 					b.Stmts = []Stmt{st}
 				}
@@ -617,7 +629,7 @@ func (g *Gen) poryStmt(contOK bool) *PorySwitch {
 // ScriptBody generates the body of one script / inline map script and
 // resolves its gotos.
 func (g *Gen) ScriptBody(owner string) *Block {
-	g.labels, g.gotos = nil, nil
+	g.labels, g.gotos, g.condGotos = nil, nil, nil
 	g.owner = owner
 	g.depth, g.loopDepth, g.breakDepth = 0, 0, 0
 	b := &Block{ID: g.Prog.NewID()}
@@ -631,6 +643,15 @@ func (g *Gen) ScriptBody(owner string) *Block {
 			c.Args[0].Toks = []string{g.labels[g.R.IntN(len(g.labels))]}
 		} else {
 			c.Args[0].Toks = []string{g.Name("Elsewhere")}
+		}
+	}
+	for _, c := range g.condGotos {
+		if len(g.labels) > 0 {
+			c.Args[1].Toks = []string{g.labels[g.R.IntN(len(g.labels))]}
+		} else {
+			// no label to target: make it an ordinary command
+			c.Name = g.Name("cmd")
+			c.Args[1].Toks = []string{"1"}
 		}
 	}
 	g.AllLabels = append(g.AllLabels, g.labels...)
